@@ -38,6 +38,9 @@ def run(ctx) -> None:
     # a *= to exactly the address that @=-relocated code has reached, followed by more bytes (one statement deeper)
     asm_mc.design_level(ctx, "moves2", 5 if ctx.quick else 6)
     tlc_progs += asm_mc.programs(ctx, "moves2", 5 if ctx.quick else 6)
+    # a *= whose target is RAM after ROM positions (spec outcome "either": refused, or stored after the previous bytes)
+    asm_mc.design_level(ctx, "ramstar", 4 if ctx.quick else 5)
+    tlc_progs += asm_mc.programs(ctx, "ramstar", 4 if ctx.quick else 5)
     progs = tlc_progs + programs(ctx, 400 if ctx.quick else 6000)
     ctx.extra["tlc_enumerated_programs"] = len(tlc_progs)
     res = asmfam.observe(progs)
